@@ -183,7 +183,12 @@ func (r *DynamicHostResolver) addressResolved(hostname string, addrs []string, e
 }
 
 func (r *DynamicHostResolver) notifyAddressChanged(hostname string, entry *AddressWithCallback, newAddrs []string, removedAddrs []string) {
-	for _, callback := range entry.callbacks {
+	// ResolveHost appends to the callback list under the lock; take a copy under the
+	// lock and call the callbacks without it (they may call back into the resolver)
+	r.Lock()
+	callbacks := append([]IPResolvedCallback(nil), entry.callbacks...)
+	r.Unlock()
+	for _, callback := range callbacks {
 		callback(hostname, newAddrs, removedAddrs)
 	}
 
